@@ -29,6 +29,9 @@ RULE = (
 )
 
 ASSUMPTIONS = [
+    "in 30% of the runs a second `shutdown(same mode)` is issued on a clone of the handle 5-60 ms after the first call; neither "
+    "that future (unless its own timeout has elapsed) nor the awaited clone of the handle may resolve before the coordinator's "
+    "`coordinator_end` event, i.e. while the drain is still going on (both are ordered after it in every run of the unchanged tree)",
     "the hook events (harness/shutdown/hooks.patch, `#[cfg(pavex_verif)]`, add-only) are logged where their names say; "
     "clients and the handler write to the same log, so 'before' means 'earlier in that one total order'",
     "'received before the call' = the client's write_all returned before the harness logged `shutdown_called`, on a "
